@@ -2,8 +2,21 @@
 list order, the outcome method each handler calls), the handler of last resort
 TestCase.run passes to RunTest, and the classes onException exempts from a
 traceback detail.  Everything is read from a live, trivial testtools.TestCase by
-introspection and by probing the handlers with a recording result - never by
-parsing the source (DESIGN 3.2)."""
+introspection of the PUBLIC attribute `exception_handlers` and by probing - never
+by parsing the source, by comparing function names or by importing private names
+(DESIGN 3.2):
+
+  * what a handler reports: it is CALLED (handler(case, result, exception)) with a
+    recording testtools.testresult.doubles.ExtendedTestResult; the name of the
+    handler (`_report_*`), whether it is a staticmethod, a bound method or a
+    functools.partial does not matter;
+  * the two private signal classes (`_ExpectedFailure`, `_UnexpectedSuccess` today)
+    are found by PROVOKING them through the public TestCase.expectFailure on a
+    failing and on a passing callable and taking type(e); the private module
+    names are read only if provoking raised nothing;
+  * SkipTest / AssertionError / Exception / BaseException are the builtin /
+    unittest classes themselves.
+"""
 
 PRELUDE = """From Coq Require Import List.
 Import ListNotations.
@@ -17,26 +30,62 @@ Inductive report := R_success | R_skip | R_failure | R_expected_failure | R_unex
 """
 
 
-class _Recorder:
-    def __init__(self):
-        self.calls = []
+def _recorder():
+    from testtools.testresult.doubles import ExtendedTestResult
+    return ExtendedTestResult()
 
-    def __getattr__(self, name):
-        if name.startswith("add") or name in ("startTest", "stopTest"):
-            def f(*a, **kw):
-                self.calls.append(name)
-            return f
-        raise AttributeError(name)
+
+def _calls(rec):
+    # `_events` is the documented record of the doubles
+    return [e[0] for e in rec._events if e[0].startswith("add") or e[0] in ("startTest", "stopTest")]
+
+
+def _raised_by(f):
+    try:
+        f()
+    except BaseException as e:  # noqa - the class of whatever comes out is the answer
+        return type(e)
+    return None
+
+
+_SIGNALS = {}
+
+
+def signal_classes():
+    """(class raised by expectFailure when the callable fails as expected, class raised when it passes): the
+    private plumbing classes of testtools.testcase, found through the public API"""
+    import testtools
+    key = id(testtools)
+    if key in _SIGNALS:
+        return _SIGNALS[key]
+
+    class Probe(testtools.TestCase):
+        def test_x(self):
+            pass
+
+    def failing():
+        raise Probe.failureException("probe")
+
+    xfail = _raised_by(lambda: Probe("test_x").expectFailure("probe", failing))
+    uxsuccess = _raised_by(lambda: Probe("test_x").expectFailure("probe", lambda: None))
+    from testtools import testcase
+    if xfail is None:
+        xfail = getattr(testcase, "_ExpectedFailure", None)
+    if uxsuccess is None:
+        uxsuccess = getattr(testcase, "_UnexpectedSuccess", None)
+    _SIGNALS[key] = (xfail, uxsuccess)
+    return _SIGNALS[key]
 
 
 def _hclass(cls):
     import unittest
-    from testtools import testcase
+    xfail, uxsuccess = signal_classes()
+    # the builtin classes first: a tree whose expectFailure raises, say, AssertionError has no xfail class
     names = [(unittest.case.SkipTest, "H_SkipTest"), (AssertionError, "H_AssertionError"),
-             (testcase._ExpectedFailure, "H_ExpectedFailure"), (testcase._UnexpectedSuccess, "H_UnexpectedSuccess"),
-             (Exception, "H_Exception"), (BaseException, "H_BaseException")]
+             (Exception, "H_Exception"), (BaseException, "H_BaseException"),
+             (xfail, "H_ExpectedFailure"), (uxsuccess, "H_UnexpectedSuccess")]
     for c, n in names:
-        if cls is c:
+        if c is not None and cls is c:
             return n
     return "H_Other"
 
@@ -47,7 +96,7 @@ _REPORT = {"addSuccess": "R_success", "addSkip": "R_skip", "addFailure": "R_fail
 
 
 def _probe(handler, case, cls):
-    rec = _Recorder()
+    rec = _recorder()
     try:
         exc = cls("probe")
     except Exception:
@@ -56,10 +105,11 @@ def _probe(handler, case, cls):
         handler(case, rec, exc)
     except Exception:
         return "R_other"
-    if not rec.calls:
+    calls = _calls(rec)
+    if not calls:
         return "R_none"
-    if len(rec.calls) == 1 and rec.calls[0] in _REPORT:
-        return _REPORT[rec.calls[0]]
+    if len(calls) == 1 and calls[0] in _REPORT:
+        return _REPORT[calls[0]]
     return "R_other"
 
 
@@ -86,7 +136,7 @@ def table():
         def run(self, result=None):
             return None
 
-    Probe("test_x", runTest=Spy).run(_Recorder())
+    Probe("test_x", runTest=Spy).run(_recorder())
     lr = seen.get("last_resort")
     last = _probe(lr, Probe("test_x"), KeyboardInterrupt) if lr is not None else "R_none"
     passes_table = seen.get("handlers") is not None and \
